@@ -58,6 +58,12 @@ def shard(a):
     res = core.Result()
     name = a['mod']
     core.drive(prop, strategy(name), a['n'], (a['seed'], 'C02', name), res, shrink_skip=a['known'])
+    extra = gen.extra_valid(name)
+    if extra is not None:
+        # registry / table walking generator: every branch of the table the module consumes (court names, agencies, ...)
+        strat = st.fixed_dictionaries({'mod': st.just(name), 'x': st.one_of(extra, gen.decorations(name, extra)).map(core.enc),
+                                       'opts': st.just({}), 'clock': st.none()})
+        core.drive(prop, strat, a['n'] * 4, (a['seed'], 'C02', 'extra', name), res, shrink_skip=a['known'])
     res.notes['accepted_per_module'] = {name: res.hist['accepted']}
     return res
 
